@@ -160,23 +160,12 @@ Fixpoint srun (st : list (list Z)) (ops : list op) : list obs * res (list (list 
 
 Definition sinit : list (list Z) := repeat [] NREG.
 
-(* the side conditions of the property on one operation, evaluated on the code-point state:
-   literals are UTF-8 encodings of texts, characters are non-NUL scalar values.  [shrink_free]
-   additionally excludes an in-place replacement by a character with a SHORTER encoding — the
-   case in which the pinned runtime breaks its representation invariant. *)
+(* the side conditions of the property on one operation: literals are UTF-8 encodings of texts,
+   characters are non-NUL scalar values *)
 Definition in_text (o : op) : bool :=
   match o with
   | OLit _ bs => match decode bs with Some _ => true | None => false end
   | OConcatSC _ _ c | OConcatCS _ c _ | OCharToString _ c | OReplace _ c _ => tchar c
-  | _ => true
-  end.
-Definition shrink_free (st : list (list Z)) (o : op) : bool :=
-  match o with
-  | OReplace r c i =>
-    match s_index (sreg st r) i with
-    | Ok old => cp_len old <=? cp_len c
-    | _ => true
-    end
   | _ => true
   end.
 (* all operations of a history satisfy a state-dependent guard along the specification run *)
